@@ -251,4 +251,19 @@ theorem sameLifetime_applied {s s' : State} (hI : Inv s) (ho : s.isOpen = true) 
     obtain ⟨h4, h5⟩ := applied_mono h3 h2 hk hs
     exact ⟨Nat.le_trans h1 h4, h5, inv_step h3 hx hs⟩
 
+theorem isFault_exact {ev : Event} (h : isFault ev = true) : ev.exact = true := by
+  cases ev with
+  | segEnd sid ok x => cases ok <;> simp_all [isFault, Event.exact]
+  | mergeSegEnd sid ok x => cases ok <;> simp_all [isFault, Event.exact]
+  | snapEnd ok x => cases ok <;> simp_all [isFault, Event.exact]
+  | _ => rfl
+
+/-- without a fault `reopenSkip` is `reopen` -/
+theorem reopenSkip_nil (s : State) : reopenSkip [] s = reopen s := by
+  unfold reopenSkip reopen
+  have : (loadOrder s.disk).filter (fun f => !([] : List Nat).contains f.epoch) = loadOrder s.disk := by
+    rw [List.filter_eq_self]; intro a _; simp
+  simp only [this]
+  rfl
+
 end Bluge.Persist
